@@ -14,6 +14,8 @@ func run(c *vh.Ctx) {
 	switch c.Prop {
 	case "C31":
 		runNil(c)
+	case "C46":
+		runLegacy(c)
 	default:
 		panic("flavors harness: unknown property " + c.Prop)
 	}
